@@ -18,6 +18,7 @@ package serve
 // The model's predicted outcome is compared for drift only.
 
 import (
+	"sync/atomic"
 	"bytes"
 	"context"
 	"encoding/binary"
@@ -127,13 +128,27 @@ func realConfig(c absCfg) *config.Config {
 		cfg.ECS.MinScopeV6 = 32
 		cfg.ECS.ClientNetworks = []string{"0.0.0.0/0", "::/0"}
 	case "invalid":
+		// one of several out-of-range settings, each of which must disable forwarding entirely
 		cfg.ECS.Enabled = true
-		cfg.ECS.ForwardV4Max = 40 // out of range: must disable forwarding entirely
+		cfg.ECS.ForwardV4Max = 24
 		cfg.ECS.ForwardV6Max = 56
-		cfg.ECS.ClientNetworks = []string{"0.0.0.0/0"}
+		cfg.ECS.ClientNetworks = []string{"0.0.0.0/0", "::/0"}
+		switch invalidVariant.Add(1) % 4 {
+		case 0:
+			cfg.ECS.ForwardV4Max = 40
+		case 1:
+			cfg.ECS.ForwardV6Max = 200 // with an explicit, valid floor: the floor's own range check cannot mask it
+			cfg.ECS.MinScopeV6 = 48
+		case 2:
+			cfg.ECS.MinScopeV4 = 33
+		default:
+			cfg.ECS.ClientNetworks = []string{"0.0.0.0/0", "not-a-prefix"}
+		}
 	}
 	return cfg
 }
+
+var invalidVariant atomic.Int64
 
 var hostsFile string
 
